@@ -142,6 +142,15 @@ CHECKS = {
              "execution against the generator's structure, not by a theorem about the table handlers.",
         note=TRUST + "table/tag handlers, tokenizer and encoder exercised, not modelled; ASCII word characters.",
         ref="DESIGN.md section 4 C03"),
+    "C19": dict(
+        technique="Coq proofs (attribute round trip; bracket protection leaves no double bracket) + protect correspondence + three-parse round-trip oracle",
+        text="Theorems c19_attributes_survive, c19_no_double_bracket_after_protection (for every string) and "
+             "c19_protection_only_inserts_markers; the protect model is compared with to_wikitext on generated bracket strings. "
+             "PARTIAL: equivalence of the tree after to_wikitext + parse (up to whitespace at block boundaries), the fixed-point "
+             "clause and the list-argument API are decided by execution on generated documents (sections, lists, tables with "
+             "URL-safe attributes, inline markup, templates, parser functions, HTML elements, definition lists).",
+        note=TRUST + "per-kind emitters and the parser exercised, not modelled; equivalence relation is harness/c19.py:norm.",
+        ref="DESIGN.md section 4 C19"),
 }
 
 NOT_YET = "check not built yet in this round (planned, see DESIGN.md section 8)"
